@@ -98,6 +98,112 @@ pub fn disturb() {
     });
 }
 
+/// one call of the library on an input of size n (see `scale-probe` in main)
+fn scale_probe(kind: &str, n: usize) -> i32 {
+        let map: &[u8] = b"com.example.Foo -> a:\n    1:2:void run():5:6 -> m\n";
+        let mapper = proguard::ProguardMapper::new(proguard::ProguardMapping::new(map));
+        let mut out = Vec::new();
+        proguard::ProguardCache::write(&proguard::ProguardMapping::new(map), &mut out).expect("write");
+        let buf = handles::Aligned::new(&out);
+        let cache = proguard::ProguardCache::parse(buf.bytes()).expect("parse");
+        let sig_of = |s: &str| {
+            let a = mapper.deobfuscate_signature(s).map(|d| d.format_signature());
+            let b = cache.deobfuscate_signature(s).map(|d| d.format_signature());
+            println!("same={} some={}", a == b, a.is_some());
+        };
+        match kind {
+            "sig-junk" => sig_of(&format!("(I){}[J", "-".repeat(n))),
+            "sig-junk-param" => sig_of(&format!("({}I)V", "-".repeat(n))),
+            "sig-arrays" => sig_of(&format!("({}I)[J", "[".repeat(n))),
+            "sig-params" => sig_of(&format!("({})V", "La;".repeat(n))),
+            "sig-class" => sig_of(&format!("(L{};)V", "a/".repeat(n))),
+            "trace-depth" => {
+                // a cause chain of depth n through every stack-trace entry point
+                let mut text = String::from("a: boom\n    at a.m(F.java:1)\n");
+                for _ in 0..n {
+                    text.push_str("Caused by: a: inner\n    at a.m(F.java:2)\n");
+                }
+                let t1 = mapper.remap_stacktrace(&text).map(|s| s.len()).unwrap_or(0);
+                let t2 = cache.remap_stacktrace(&text).map(|s| s.len()).unwrap_or(0);
+                let parsed = proguard::StackTrace::try_parse(text.as_bytes()).expect("parses");
+                let printed = parsed.to_string();
+                let typed_m = mapper.remap_stacktrace_typed(&parsed).to_string().len();
+                let typed_c = cache.remap_stacktrace_typed(&parsed).to_string().len();
+                let again = proguard::StackTrace::try_parse(printed.as_bytes()).map(|t| t == parsed).unwrap_or(false);
+                println!("same={} some={}", t1 == t2 && typed_m == typed_c && again && printed == text, true);
+            }
+            k if k.starts_with("trace-op-") => {
+                // one operation on a cause chain of depth n; the value is leaked afterwards so that only the named
+                // operation runs (op "drop" drops it)
+                let mut text = String::from("a: boom\n    at a.m(F.java:1)\n");
+                for _ in 0..n {
+                    text.push_str("Caused by: a: inner\n    at a.m(F.java:2)\n");
+                }
+                let text: &'static str = Box::leak(text.into_boxed_str());
+                let parsed = proguard::StackTrace::try_parse(text.as_bytes()).expect("parses");
+                match &k["trace-op-".len()..] {
+                    "parse" => std::mem::forget(parsed),
+                    "drop" => drop(parsed),
+                    "display" => {
+                        let _ = parsed.to_string().len();
+                        std::mem::forget(parsed);
+                    }
+                    "typed-mapper" => {
+                        std::mem::forget(mapper.remap_stacktrace_typed(&parsed));
+                        std::mem::forget(parsed);
+                    }
+                    "typed-cache" => {
+                        std::mem::forget(cache.remap_stacktrace_typed(&parsed));
+                        std::mem::forget(parsed);
+                    }
+                    "eq" => {
+                        let other = proguard::StackTrace::try_parse(text.as_bytes()).expect("parses");
+                        let same = other == parsed;
+                        std::mem::forget(other);
+                        std::mem::forget(parsed);
+                        assert!(same);
+                    }
+                    "clone" => {
+                        std::mem::forget(parsed.clone());
+                        std::mem::forget(parsed);
+                    }
+                    "debug" => {
+                        let _ = format!("{parsed:?}").len();
+                        std::mem::forget(parsed);
+                    }
+                    other => {
+                        eprintln!("unknown op {other}");
+                        return 2;
+                    }
+                }
+                println!("same=true some=true");
+            }
+            "text-depth" => {
+                let mut text = String::from("a: boom\n    at a.m(F.java:1)\n");
+                for _ in 0..n {
+                    text.push_str("Caused by: a: inner\n    at a.m(F.java:2)\n");
+                }
+                let t1 = mapper.remap_stacktrace(&text).unwrap_or_default();
+                let t2 = cache.remap_stacktrace(&text).unwrap_or_default();
+                println!("same={} some={}", t1 == t2 && t1.lines().count() == 2 * n + 2, true);
+            }
+            "trace-frames" => {
+                let mut text = String::from("a: boom\n");
+                for k in 0..n {
+                    text.push_str(&format!("    at a.m(F.java:{})\n", 1 + k % 2));
+                }
+                let t1 = mapper.remap_stacktrace(&text).unwrap_or_default();
+                let t2 = cache.remap_stacktrace(&text).unwrap_or_default();
+                println!("same={} some={}", t1 == t2, true);
+            }
+            other => {
+                eprintln!("unknown probe {other}");
+                return 2;
+            }
+        }
+    0
+}
+
 fn main() {
     let args: Vec<String> = std::env::args().collect();
     if args.len() < 4 {
@@ -112,6 +218,16 @@ fn main() {
         proguard::ProguardCache::write(&proguard::ProguardMapping::new(&src), &mut out).expect("write");
         std::fs::write(&args[3], out).expect("output");
         return;
+    }
+    if args[1] == "scale-probe" {
+        // one call of the library on an input of size n, in a process of its own: a crash that is not a panic (stack
+        // overflow, abort) ends this process only, and the parent records how it ended
+        let n: usize = args[3].parse().expect("size");
+        let kind = args[2].clone();
+        // a stack of defined size (the default of a main thread on Linux), whatever `ulimit -s` says here
+        let worker = std::thread::Builder::new().stack_size(8 << 20).spawn(move || scale_probe(&kind, n)).expect("spawn");
+        let code = worker.join().unwrap_or(101);
+        std::process::exit(code);
     }
     if args[1] == "uuid-of" {
         let src = std::fs::read(&args[2]).expect("input file");
